@@ -326,6 +326,10 @@ def render(F, root, style=None):
                 o = {"source-file": doc_file_name(doc), "document-count": _num(doc["count"])}
                 if doc["tidx"]:
                     o["target-index"] = doc["tidx"]
+                if doc["tds"]:
+                    o["target-data-stream"] = doc["tds"]
+                if doc["iaamd"] != "abs":
+                    o["includes-action-and-meta-data"] = doc["iaamd"] == "true"
                 if (d["c"], d["e"]) == (ki + 1, di + 1):
                     if d["k"] == "docNoFile":
                         del o["source-file"]
@@ -335,6 +339,12 @@ def render(F, root, style=None):
                         o["document-count"] = "10"
                 docs.append(o)
             co = {"name": k["name"], "documents": docs}
+            if k["tidx"]:
+                co["target-index"] = k["tidx"]
+            if k["tds"]:
+                co["target-data-stream"] = k["tds"]
+            if k["iaamd"] != "abs":
+                co["includes-action-and-meta-data"] = k["iaamd"] == "true"
             if "corpora" in F["parts"] and "docs" in F["parts"]:
                 # second-level part: the pattern is relative to the directory of corpora/default.json
                 files["corpora/docs/k%d.json" % (ki + 1)] = ser.items(docs)
@@ -587,7 +597,16 @@ def project(t):
                 arch = doc.document_archive[len(fn) + 1 :]
             else:
                 arch = "weird:%r" % (doc.document_archive,)
-            docs.append({"file": base, "arch": arch, "count": _i(doc.number_of_documents), "tidx": _s(doc.target_index), "tds": _s(doc.target_data_stream)})
+            docs.append(
+                {
+                    "file": base,
+                    "arch": arch,
+                    "count": _i(doc.number_of_documents),
+                    "iaamd": doc.includes_action_and_meta_data is True,
+                    "tidx": _s(doc.target_index),
+                    "tds": _s(doc.target_data_stream),
+                }
+            )
         corpora.append({"name": _s(k.name), "docs": docs})
     core = {"chals": chals, "corpora": corpora, "indices": [_s(i.name) for i in t.indices], "streams": [_s(d.name) for d in t.data_streams]}
     return core, extra
@@ -680,23 +699,57 @@ def random_file(rnd, types):
     for o in F["ops"]:
         if o["bulk"]["v"] == -1:
             o["bulk"] = dict(NOVAL)
-    target = rnd.choice(["none", "index", "index", "indices", "stream"])
+    # 0 / 1 / 2 indices or 1 / 2 data streams x target on the document set / on the corpus / nowhere x action-and-meta-data
+    target = rnd.choice(["none", "index", "index", "indices", "indices", "stream", "streams"])
     if target == "index":
         F["indices"] = ["idx1"]
     elif target == "indices":
         F["indices"] = ["idx1", "idx2"]
     elif target == "stream":
         F["streams"] = ["ds1"]
-    if rnd.random() < noisy:
-        F["streams"] = F["streams"] + ["ds2"]
+    elif target == "streams":
+        F["streams"] = ["ds1", "ds2"]
+    if rnd.random() < noisy / 2:
+        F["streams"] = F["streams"] + ["ds3"]
     for ki in range(rnd.choice([0, 1, 1, 2])):
+        ctidx, ctds, ciaamd = "", "", "abs"
+        if F["indices"] and rnd.random() < 0.35:
+            ctidx = rnd.choice(F["indices"] + ["idx9"])
+        if F["streams"] and rnd.random() < 0.35:
+            ctds = rnd.choice(F["streams"])
+        if rnd.random() < 0.1:
+            ciaamd = rnd.choice(["true", "false"])
+        if rnd.random() < noisy / 2:
+            ctidx = "idx1"  # possibly in a track without indices section
+        if rnd.random() < noisy / 4:
+            ctds = "ds1"
         docs = []
         for di in range(rnd.choice([1, 1, 2])):
-            tidx = ""
-            if target == "indices" or (target == "index" and rnd.random() < 0.3) or rnd.random() < noisy / 2:
-                tidx = rnd.choice(["idx1", "idx2"])
-            docs.append({"base": "docs%d%d" % (ki, di), "ext": rnd.choice(["", "bz2", "gz"]), "count": _val(rnd, [1, 1000, 2000000000], NPARAMS), "tidx": tidx})
-        F["corpora"].append({"name": rnd.choice(["k1", "k2"]) if rnd.random() < noisy else "corpus%d" % ki, "docs": docs})
+            tidx, tds, iaamd = "", "", "abs"
+            need = target == "none" or (target == "indices" and not ctidx) or (target == "streams" and not ctds)
+            if rnd.random() < 0.12:
+                iaamd = "true"
+            elif need and rnd.random() >= max(noisy, 0.08):
+                # the document set names its target itself (otherwise: nothing determines it)
+                if target == "streams" or (target == "none" and rnd.random() < 0.3):
+                    tds = rnd.choice(F["streams"] or ["ds1"])
+                else:
+                    tidx = rnd.choice(["idx1", "idx2"])
+            elif not need and rnd.random() < 0.3:
+                if F["streams"]:
+                    tds = rnd.choice(F["streams"] + ["ds9"])
+                else:
+                    tidx = rnd.choice(["idx1", "idx2"])
+            if rnd.random() < noisy / 3:
+                # a target of the other kind
+                if F["streams"]:
+                    tidx = "idx1"
+                else:
+                    tds = "ds1"
+            if iaamd == "abs" and rnd.random() < 0.05:
+                iaamd = "false"
+            docs.append({"base": "docs%d%d" % (ki, di), "ext": rnd.choice(["", "bz2", "gz"]), "count": _val(rnd, [1, 1000, 2000000000], NPARAMS), "tidx": tidx, "tds": tds, "iaamd": iaamd})
+        F["corpora"].append({"name": rnd.choice(["k1", "k2"]) if rnd.random() < noisy else "corpus%d" % ki, "tidx": ctidx, "tds": ctds, "iaamd": ciaamd, "docs": docs})
     nch = 1 if F["form"] != "challenges" else rnd.choice([1, 2, 3])
     default_at = rnd.randrange(nch)
     for c in range(nch):
@@ -828,7 +881,7 @@ def _mutate(rnd, F):
     elif m == "dupop" and F["ops"]:
         F["ops"].append(dict(rnd.choice(F["ops"]), type="search"))
     elif m == "dupcorpus" and F["corpora"]:
-        F["corpora"].append({"name": F["corpora"][0]["name"], "docs": [{"base": "other", "ext": "", "count": {"v": 5, "p": ""}, "tidx": F["corpora"][0]["docs"][0]["tidx"]}]})
+        F["corpora"].append(dict(F["corpora"][0], docs=[dict(F["corpora"][0]["docs"][0], base="other", ext="", count={"v": 5, "p": ""})]))
     elif m == "dupchal" and F["form"] == "challenges":
         F["chals"].append({"name": ch["name"], "dflt": "abs", "sched": [dict(el)]})
     elif m == "defect":
@@ -856,7 +909,8 @@ def _mutate(rnd, F):
 
 def size(F):
     n = len(F["ops"]) + len(F["indices"]) + len(F["streams"]) + len(F["supN"]) + len(F["supS"]) + len(F["parts"]) + len(F["refs"]) + (F["defect"]["k"] != "none")
-    n += sum(len(k["docs"]) for k in F["corpora"])
+    n += sum(len(k["docs"]) + bool(k["tidx"]) + bool(k["tds"]) + (k["iaamd"] != "abs") for k in F["corpora"])
+    n += sum(bool(d["tds"]) + (d["iaamd"] != "abs") for k in F["corpora"] for d in k["docs"])
     for ch in F["chals"]:
         n += ch["dflt"] != "abs"
         for el in ch["sched"]:
